@@ -61,16 +61,45 @@ def linspace_rules(run, F):
         fn = [f for f in F.fns if f.crate == 'tea_core' and f.file.endswith('linspace.rs') and
               f.qpath.endswith(q)][0]
         t = N.tbl(fn)
-        # `i` is the pre-increment index (next) / the post-decrement len (next_back)
-        if q.endswith('::next'):
-            want = N.T((['(self.index < self.len)'], 'Some(((self.step * i) + self.start))',
-                        ['i := self.index', 'self.index AddAssign 1']),
-                       (['(self.len <= self.index)'], 'NULL', []))
-        else:
-            want = N.T((['(self.index < self.len)'], "Some(((self.len' * self.step) + self.start))",
-                        ['self.len SubAssign 1']),     # the leaf is evaluated after the effects
-                       (['(self.len <= self.index)'], 'NULL', []))
-        ok = t == want
+        # item path: under index < len, `next` yields start + step * index and advances index by
+        # one; `next_back` shrinks len by one and yields start + step * (len - 1).  Values are
+        # compared as polynomials with the path's lets substituted and the state update read as
+        # a delta, so `self.index += 1`, `let i = self.index; self.index = i + 1` are the same.
+        import tl as _tl
+        from algebra import parse_poly as _pp, defs_of as _defs
+        rows = [(cs, l, list(ef)) for cs, l, ef in t]
+        item = [r for r in rows if r[0] == frozenset({'(self.index < self.len)'})]
+        none = [r for r in rows if r[0] == frozenset({'(self.len <= self.index)'})]
+        ok = len(rows) == 2 and len(item) == 1 and len(none) == 1 and none[0][1] == 'NULL' and not none[0][2]
+        if ok:
+            cs, leaf, ef = item[0]
+            state, defs = {}, {}
+
+            def post(x):
+                # `self.f'` is the field after the updates seen so far: old value + delta
+                return re.sub(r"self\.(\w+)'+", lambda m_: '(self.%s + %d)' % (m_.group(1), state.get(m_.group(1), 0)), x)
+            good = True
+            for x in ef:
+                m_ = re.match(r"(v\d+)'* := (.*)$", x)
+                if m_:
+                    defs[m_.group(1)] = post(m_.group(2))
+                    continue
+                d = _tl._effect_delta(post(x), defs)
+                if d is None:
+                    good = False
+                    break
+                state[d[0]] = state.get(d[0], 0) + d[1]
+            m_ = re.fullmatch(r'Some\((.*)\)', leaf)
+            try:
+                val = _pp(post(m_.group(1)), defs) if m_ and good else None
+            except Exception:
+                val = None
+            if q.endswith('::next'):
+                want_v = _pp('(self.start + (self.step * self.index))', {})
+                ok = good and state == {'index': 1} and val is not None and val == want_v
+            else:
+                want_v = _pp('(self.start + (self.step * (self.len - 1)))', {})
+                ok = good and state == {'len': -1} and val is not None and val == want_v
         run.ob('GEN.linspace', fn, 'Linspace::%s element' % fn.name, ok, fn.loc(),
                'table %s' % dtree.show(t))
     fn = one('linspace::linspace')
